@@ -67,7 +67,7 @@ def judge(country: str, bban: str):
 
 
 def nat_fillers(tier: str):
-    return ["distinct", "seeded", "max", "letters"] if tier == "quick" else bases.FILLERS
+    return ["distinct", "seeded", "max", "letters", "min"] if tier == "quick" else bases.FILLERS
 
 
 def accepted_fillers(country: str, tier: str):
@@ -188,6 +188,53 @@ def partner_sequences(part, country, tier):
         part.stat("partner_sequences")
 
 
+def bank_shard(args):
+    """Registry-driven bodies: for every listed (country, bank code) key of the national countries a
+    BBAN around that bank code - with the reference's digits (accept) and with two other values of
+    the check field (reject) - judged right after a German IBAN of a listed bank went through
+    national validation (what a bank entry or an earlier country leaves behind must not matter)."""
+    from ..ref import lookup
+    from . import c12
+    _, country, tier = args
+    part = par.Part()
+    keys = sorted(k[1] for k in lookup.by_key() if k[0] == country)
+    de_text = bases.iban_text("DE", "37040044" + "0532013000")
+    cps = check_positions(country)
+    c = reg.countries()[country]
+    cl = bases.classes_of(c)
+    for code in keys:
+        text = c12.build_iban(country, code)
+        if text is None:
+            part.stat("keys_without_buildable_iban")
+            continue
+        body = text[4:]
+        good = nat.with_check(country, body)
+        variants = []
+        if good is not None:
+            variants.append(good)
+            base_for_bad = good
+        else:
+            base_for_bad = body
+        for delta in (1, 2):
+            chars = list(base_for_bad)
+            p = cps[-1]
+            a = reg.CLASS_CHARS[cl[p]]
+            chars[p] = a[(a.index(chars[p]) + delta) % len(a)]
+            variants.append("".join(chars))
+        for b in variants:
+            if c.lookup_key(b) != code:
+                continue  # the check field is part of the lookup key (PL): another bank
+            lib.iban_parse(de_text, True)
+            part.count(("bank", country, b))
+            part["evals"] += 4
+            status, sig, exp, obs = judge(country, b)
+            if status == "bad":
+                part.violation(sig + "-for-a-listed-bank", {"kind": "c06bank", "country": country, "bban": b,
+                                                           "bank_code": code}, exp, obs)
+    part.stat("listed_bank_keys", len(keys))
+    return part.done()
+
+
 def other_shard(args):
     """Countries outside the 22: flag must not matter (unless someone registered an algorithm,
     then it may only reject).  For all countries: accepted with flag => accepted without."""
@@ -220,6 +267,8 @@ def other_shard(args):
 
 
 def shard(args):
+    if args[0] == "bank":
+        return bank_shard(args)
     return nat_shard(args[1:]) if args[0] == "nat" else other_shard(args[1:])
 
 
@@ -230,6 +279,10 @@ def replay(case: dict) -> dict:
         k, o = lib.outcome(lib.IBAN, ptext)
         if k == "ok":
             lib.outcome(o.bban.validate_national_checksum)
+        status, sig, exp, obs = judge(case["country"], case["bban"])
+        return {"ok": status != "bad", "signature": sig, "expected": exp, "observed": obs}
+    if case["kind"] == "c06bank":
+        lib.iban_parse(bases.iban_text("DE", "37040044" + "0532013000"), True)
         status, sig, exp, obs = judge(case["country"], case["bban"])
         return {"ok": status != "bad", "signature": sig, "expected": exp, "observed": obs}
     if case["kind"] == "c06":
@@ -246,6 +299,7 @@ def main(tier: str) -> int:
     table = reg.countries()
     natc = sorted(k for k in nat.COUNTRIES if k in table)
     shards = [("nat", c, tier, f) for c in natc for f in accepted_fillers(c, tier)] + [("other", c, tier) for c in sorted(table)]
+    shards += [("bank", c, tier) for c in natc]
     par.run_shards(run, shard, shards)
     run.extra.update({"national_countries": natc,
                       "missing_from_table": sorted(nat.COUNTRIES - set(table)),
